@@ -1,8 +1,9 @@
 //! C31 — reloading keeps every zone on its own latest good data.
 //!
 //! Zones {p., c.p., s.}; per zone a file state in {missing, valid-v1,
-//! valid-v2, syntax-error, validation-error}; events = {set the configured
-//! subset (8), set one file's state (15)}, a reload after each event. Every
+//! valid-v2, syntax-error, validation-error, valid-with-warning (v3),
+//! validation-error-and-warning}; events = {set the configured subset (8),
+//! set one file's state (21)}, a reload after each event. Every
 //! event sequence up to the depth bound is executed on a real directory
 //! through config::load_from_path -> zones::reload -> Server::set_catalog,
 //! and after every step the installed catalog is queried through
@@ -30,9 +31,13 @@ enum FileState {
     V2,
     Syntax,
     Invalid,
+    /// Loadable although validation reports a warning (generation 3).
+    Warned,
+    /// Validation reports an error and a warning: not loadable.
+    InvalidAndWarned,
 }
 
-const FILE_STATES: [FileState; 5] = [FileState::Missing, FileState::V1, FileState::V2, FileState::Syntax, FileState::Invalid];
+const FILE_STATES: [FileState; 7] = [FileState::Missing, FileState::V1, FileState::V2, FileState::Syntax, FileState::Invalid, FileState::Warned, FileState::InvalidAndWarned];
 
 #[derive(Clone, Copy, Debug, PartialEq, Eq)]
 enum Event {
@@ -77,6 +82,15 @@ fn file_text(zone: usize, s: FileState) -> Option<String> {
         FileState::Syntax => Some(format!("$ORIGIN {}\n$TTL 60\n@ IN SOA ns admin ( 9 3600\nthis is not a zone file \"\n", ZONES[zone])),
         // Parses, but validation fails: no NS at the apex.
         FileState::Invalid => Some(format!("$ORIGIN {}\n$TTL 60\n@ IN SOA ns admin 9 3600 600 86400 60\n@ TXT \"zone=broken\"\n", ZONES[zone])),
+        // Valid, with a warning-class issue: an in-zone mail exchanger
+        // without an address.
+        FileState::Warned => Some(format!("{}@ MX 10 mx\n", zone_text(zone, 3))),
+        // An error-class issue (in-zone name server without an address) next
+        // to the same warning-class issue.
+        FileState::InvalidAndWarned => Some(format!(
+            "$ORIGIN {}\n$TTL 60\n@ IN SOA ns admin 8 3600 600 86400 60\n@ NS ns\n@ MX 10 mx\n@ TXT \"zone=broken-and-warned\"\n",
+            ZONES[zone]
+        )),
     }
 }
 
@@ -84,6 +98,7 @@ fn loadable(s: FileState) -> Option<u8> {
     match s {
         FileState::V1 => Some(1),
         FileState::V2 => Some(2),
+        FileState::Warned => Some(3),
         _ => None,
     }
 }
@@ -329,7 +344,7 @@ pub fn run(ctx: Ctx) -> ! {
     let root = scratch_root();
     let totals = Totals { transitions: AtomicU64::new(0), histories: AtomicU64::new(0) };
     let all_states = std::sync::Mutex::new(BTreeSet::new());
-    let rule = "every sequence of <= d events (d = 4 quick, 5 thorough) over {set configured subset of {p., c.p., s.} (8), set one zone file to missing / valid v1 / valid v2 / syntax error / validation error (15)}, a reload after each, executed from scratch on a real directory through the daemon's config::load_from_path -> zones::reload -> Server::set_catalog (no state merging: entry metadata - path, mtime - is hidden state); after every step 6 probe names are queried through Server::handle_message and compared with the reference model (longest configured suffix; new data if the file loads and validates, else this zone's previous data, else SERVFAIL; unconfigured => not served). states = distinct (configuration, files, model) states reached, transitions = reload steps executed, traces_validated_against_impl = histories executed";
+    let rule = "every sequence of <= d events (d = 4 quick, 5 thorough) over {set configured subset of {p., c.p., s.} (8), set one zone file to missing / valid v1 / valid v2 / syntax error / validation error / valid with a validation warning (v3) / validation error together with a warning (21)}, a reload after each, executed from scratch on a real directory through the daemon's config::load_from_path -> zones::reload -> Server::set_catalog (no state merging: entry metadata - path, mtime - is hidden state); after every step 6 probe names are queried through Server::handle_message and compared with the reference model (longest configured suffix; new data if the file loads and validates, else this zone's previous data, else SERVFAIL; unconfigured => not served). states = distinct (configuration, files, model) states reached, transitions = reload steps executed, traces_validated_against_impl = histories executed";
     if let Some(case) = ctx.replay_case() {
         let idx: Vec<usize> = case["history_idx"].as_array().or_else(|| case["case"]["history_idx"].as_array()).expect("history_idx").iter().map(|v| v.as_u64().unwrap() as usize).collect();
         let hist: Vec<Event> = idx.iter().map(|i| evs[*i]).collect();
